@@ -1,0 +1,64 @@
+//go:build verif
+
+// Contracts for the verification machinery in /verif (comment-only; compiled only with -tags verif).
+// Sequential core of the batch writer (C16): goroutines, tickers and select are outside the verified subset.
+
+package batch
+
+//@ ghost anchorsWritten int
+//@ ghost addCalls int
+//@ ghost lastAdditional int
+//@ ghost cutCalls int
+//
+//@ spec writerOK(r *Writer) bool { r != nil && r.batchCutter != nil && r.protocol != nil && r.context != nil && r.logger != nil }
+//@ spec qopsNonNil(ops []*operation.QueuedOperation) bool { forall q int :: 0 <= q && q < len(ops) ==> ops[q] != nil }
+//
+//@ iface batchCutter.Add
+//@   modifies addCalls
+//@   ensures addCalls == old(addCalls) + 1
+//@ iface batchCutter.Cut
+//@   results res, err
+//@   modifies cutCalls
+//@   ensures cutCalls == old(cutCalls) + 1
+//@   ensures err == nil ==> qopsNonNil(res.Operations)
+//@ iface Context.Anchor
+//@   ensures result != nil
+//@ iface AnchorWriter.WriteAnchor
+//@   modifies anchorsWritten
+//@   ensures (result == nil ==> anchorsWritten == old(anchorsWritten) + 1) && (result != nil ==> anchorsWritten == old(anchorsWritten))
+//@ iface api/protocol.Version.OperationHandler
+//@   ensures result != nil
+//@ iface api/protocol.OperationHandler.PrepareTxnFiles
+//@   results info, err
+//@   modifies lastAdditional
+//@   ensures err == nil ==> info != nil && lastAdditional == len(info.AdditionalOperations) && qopsNonNil(info.AdditionalOperations)
+//
+//@ extern sync/atomic.LoadUint32
+//@ func (*Writer).Stopped
+//@   requires r != nil
+//
+//@ func (*Writer).Add
+//@   requires writerOK(r)
+//@   ensures addCalls <= old(addCalls) + 1
+//@   modifies addCalls
+//
+// anchor written before anything is re-queued; every deferred operation is re-added, with the batch's version;
+// a failure before the anchor is written re-queues nothing
+//@ func (*Writer).process
+//@   requires writerOK(r) && qopsNonNil(ops)
+//@   loop 1
+//@     invariant anchorsWritten == old(anchorsWritten) + 1 && addCalls <= old(addCalls) + _k
+//@   ensures result == nil ==> anchorsWritten == old(anchorsWritten) + 1 && addCalls <= old(addCalls) + lastAdditional
+//@   ensures result != nil ==> anchorsWritten == old(anchorsWritten) && addCalls == old(addCalls)
+//@   modifies anchorsWritten, addCalls, lastAdditional
+//
+// nack on any processing error, ack only after the anchor was written
+//@ func (*Writer).cutAndProcess
+//@   requires writerOK(r)
+//@   results n, pending, err
+//@   ensures err != nil ==> acks == old(acks) && n == 0
+//@   ensures err != nil && anchorsWritten == old(anchorsWritten) && cutCalls == old(cutCalls) + 1 ==> nacks <= old(nacks) + 1
+//@   ensures err == nil && n > 0 ==> acks == old(acks) + 1 && nacks == old(nacks) && anchorsWritten == old(anchorsWritten) + 1
+//@   ensures err == nil && n == 0 ==> acks == old(acks) && nacks == old(nacks) && anchorsWritten == old(anchorsWritten)
+//@   ensures acks + nacks <= old(acks) + old(nacks) + 1
+//@   modifies anchorsWritten, addCalls, lastAdditional, acks, nacks, cutCalls
